@@ -29,6 +29,30 @@ fn main() {
         Some("replay") => {
             std::process::exit(replay_main(&checks, &args[2]));
         }
+        Some("run") => {
+            // bpafmc run '<opts json>' args..   (debugging aid)
+            bpafmc::run::install_panic_hook();
+            let o: bpafmc::def::Opts = match serde_json::from_str(&args[2]) {
+                Ok(o) => o,
+                Err(e) => {
+                    eprintln!("bad opts json: {}", e);
+                    std::process::exit(2);
+                }
+            };
+            let p = match bpafmc::run::build_checked(&o) {
+                Ok(p) => p,
+                Err(e) => {
+                    eprintln!("panic while building: {}", e);
+                    std::process::exit(2);
+                }
+            };
+            let argv: Vec<bpafmc::def::Tok> = args[3..].iter().map(|s| bpafmc::def::Tok::dec(s)).collect();
+            match bpafmc::run::run(&p, &argv) {
+                bpafmc::run::Outcome::Stdout { text, .. } => println!("STDOUT\n{}", text),
+                bpafmc::run::Outcome::Stderr(t) => println!("STDERR\n{}", t),
+                o => println!("{:?}", o),
+            }
+        }
         Some("list") => {
             for c in &checks {
                 println!("{}", c.id());
